@@ -259,6 +259,7 @@ def typical_tree(rng):
         if rng.random() < 0.25:
             continue
         imgs_dir, grp_dir = [], []
+        seen = set()
         for g in range(rng.choice([1, 1, 2, 3])):
             k = rng.choice([0, 1, 2, 3, 5])
             images = rand_images(rng, k)
@@ -273,7 +274,9 @@ def typical_tree(rng):
                 sizes = [rng.choice([len(d), len(d) + 1, 0, 0xFFFFFFFF, 0x80000000]) for _, d in images]
                 exact = all(s == len(d) for s, (_, d) in zip(sizes, images))
             grp_dir.append((gname, RDir([(lang(), RData(group_blob(kind, images, first, sizes), 0))], 0)))
-            groups.append((kind, gname, ico_file(kind, images) if exact else None))
+            # `grp_write <name>` takes the first group of that name: only that one has a known answer
+            groups.append((kind, gname, ico_file(kind, images) if exact and gname not in seen else None))
+            seen.add(gname)
         rng.shuffle(imgs_dir) if rng.random() < 0.3 else None
         top.append((rt, RDir(imgs_dir, 0)))
         named = [e for e in grp_dir if not isinstance(e[0], int)]
@@ -525,6 +528,10 @@ def put32(b, off, v):
         struct.pack_into("<I", b, off, v & U32)
 
 
+def get32(b, off):
+    return struct.unpack_from("<I", b, off)[0] if 0 <= off and off + 4 <= len(b) else 0
+
+
 def put16(b, off, v):
     if 0 <= off and off + 2 <= len(b):
         struct.pack_into("<H", b, off, v & 0xFFFF)
@@ -576,15 +583,15 @@ def corrupt(rng, sec, lay, dir_va):
         put16(b, o + rng.choice([12, 14]), rng.choice([0xFFFF, 0x8000, (n - o - 16) // 8, (n - o - 16) // 8 + 1, 100])); must_fail = None
     elif kind == "odd_dir" and lay.entries:
         e = rng.choice(lay.entries)
-        v = struct.unpack_from("<I", b, e + 4)[0]
+        v = get32(b, e + 4)
         put32(b, e + 4, v + rng.choice([1, 2, 3])); must_fail = None
     elif kind == "odd_data" and lay.entries:
         e = rng.choice(lay.entries)
-        v = struct.unpack_from("<I", b, e + 4)[0]
+        v = get32(b, e + 4)
         put32(b, e + 4, v ^ rng.choice([1, 2, 3])); must_fail = None
     elif kind == "odd_name" and lay.entries:
         e = rng.choice(lay.entries)
-        v = struct.unpack_from("<I", b, e)[0]
+        v = get32(b, e)
         put32(b, e, v | HI | 1); must_fail = None
     elif kind == "name_runs_off" and lay.strings:
         s = rng.choice(lay.strings)
@@ -599,14 +606,14 @@ def corrupt(rng, sec, lay, dir_va):
         put32(b, rng.choice(lay.datas) + 4, rng.choice([n, n + 1, U32, 0x80000000])); must_fail = None
     elif kind == "size_wrap" and lay.datas:
         d = rng.choice(lay.datas)
-        otd = struct.unpack_from("<I", b, d)[0]
+        otd = get32(b, d)
         put32(b, d + 4, (U32 + 1 - ((otd - dir_va) & U32) + rng.choice([0, 1, -1])) & U32); must_fail = None
     elif kind == "truncate":
         cut = rng.choice([0, 1, 4, 8, 15, 16, 17, 24, n - 1, n - 4, n - 16, rng.randrange(0, n + 1)])
         b = b[:max(0, cut)]; must_fail = None
     elif kind == "flip_kind" and lay.entries:
         e = rng.choice(lay.entries)
-        v = struct.unpack_from("<I", b, e + 4)[0]
+        v = get32(b, e + 4)
         put32(b, e + 4, v ^ HI); must_fail = None
     elif kind == "random_byte" and n:
         for _ in range(rng.choice([1, 2, 4])):
